@@ -24,6 +24,8 @@
 //	R-C13-7  sized buffers (make([]T, n), n from configuration) indexed by a cursor / computed slot:
 //	         non-empty by a dominating test, or reviewed with a checked reason (schema minimum of
 //	         the size's spec field, or admission only after `calls < size`) (c13_buf.go).
+//	R-C13-8  constant index into a slice of run-time length: len >= k+1 on every path, by interval
+//	         reasoning over the engine's facts about len(x) (c13_idx.go).
 //	R-C13-6  non-comma-ok type assertion on ctx.GetInputResponse()/GetOutputResponse() needs a
 //	         dominating non-nil test of the asserted value.
 //
@@ -53,6 +55,15 @@
 //	InjectResiliencePolicy: a fifth panic site                                    -> R-C13-4 |explicit panic beyond the reviewed count
 //	(silent: admission rewritten as early `if calls >= permitted {return false}`, or through a
 //	local `permitted := ...; if permitted > calls`)
+//	headerlookup Handle: `len(match) > 1` -> `match != nil` (round-2 seeded b), `> 0`     -> R-C13-8 Handle|constant index into result of FindStringSubmatch
+//	parseCredentials `len(parts) < 2` -> `< 1`; signer initFromQuery `len(scopes) < 3` -> `< 1` -> R-C13-8
+//	cluster GetRaw: `len(resp.Kvs) == 0` guard deleted; autocert `len(protos) == 1 &&` dropped -> R-C13-8
+//	Mock.Handle: new `strings.Split(path, "/")[1]` without a length test                   -> R-C13-8 (new site)
+//	(silent: `2 <= len(match)`; `n := len(parts); if n != 2`; `empty := len(kvs) < 1; if empty`;
+//	`!(len(p) != 1 || p[0] != x)`)
+//	NOT caught: round-2 seeded a (ratelimiter Spec.Validate rewritten so that an empty effective
+//	policy reference is skipped): validation and bindPolicyToURL still read the same fields; that
+//	the two lookups agree is a value-semantic equivalence, no shape rule decides it.
 //	NOT caught (by design, see NotDecided): ServerPool.failureCodes map initialisation removed
 //	(implicit nil-map write); a Validate() that reads the field but tests the wrong value.
 //
@@ -93,9 +104,12 @@ func c13(c *core.Ctx) string {
 	c.Rule("R-C13-4", "cross references: spec fields naming a resilience policy, whose dangling value makes InjectResiliencePolicy panic, are read by validation code")
 	c.Rule("R-C13-5", "regexp.MustCompile applied to a spec field requires format=regexp on that field (or validation code that compiles it)")
 	c.Rule("R-C13-7", "sized buffers: a struct field that receives make([]T, n) with a run-time n and is indexed by a cursor / computed slot (not a loop variable) in the reachable code is proven non-empty at the index (dominating length test), or reviewed with a checked reason: every size reaching the constructor is a spec field with schema minimum >= 1, or a result is only recorded after a strict test has shown the size positive")
+	c.Rule("R-C13-8", "constant index x[k] into a slice of run-time length (not a parameter) in the reachable code: on every path len(x) >= k+1 is established by dominating comparisons of len(x) with constants, by what the producing call guarantees (non-nil Find*Submatch: 1, strings.Split* with a non-empty constant separator: 1), or by a reviewed reason")
 	c.Rule("R-C13-6", "a non-comma-ok type assertion on the value of ctx.GetInputResponse()/GetOutputResponse() is dominated by a non-nil test of that value")
 	c.NotDecided = []string{
 		"implicit panics in general (nil map/pointer dereference, index out of range, third-party code); only the listed operation classes are audited",
+		"nil dereference of pointers that Init binds by a lookup which validation is supposed to guarantee (e.g. RateLimiter URLRule.policy): whether the lookup in Validate() agrees with the one at run time is value-semantic",
+		"constant indexes into slices received as parameters (the caller's length contract) and non-constant indexes other than R-C13-7's cursors",
 		"request-side downcasts ctx.GetInputRequest().(*T) in a flow node with a fresh namespace or a pipeline of another protocol (documented usage contract, ~20 sites, one finding per filter kind if armed)",
 		"pkg/filters/wasmhost (build tag wasmhost, not part of the default build)",
 		"panics that depend on the environment rather than on the configuration (Kafka brokers unreachable, listen port in use)",
@@ -128,6 +142,8 @@ func c13(c *core.Ctx) string {
 	c13MustCompile(c, g, sf)
 	c13Buffers(c, g, sf)
 	lap("R-C13-7")
+	c13ConstIndexes(c, g, sf)
+	lap("R-C13-8")
 	lap("R-C13-5")
 	return "Audit of the panic sites an accepted configuration can reach: reference call graph from the lifecycle and Handle methods of every filter kind and of Pipeline/HTTPServer/GlobalFilter/MQTTProxy (recover barriers cut), explicit panics and integer divisors enumerated as a ratchet against a reviewed table, spec-field guards matched with validation code by field object, RawPayload/IsStream typestate and response downcasts decided path-sensitively on every path. Not decided: implicit panics in general, request-side downcasts, environment-dependent failures, whether a Validate() that reads a field rejects the right values."
 }
